@@ -108,6 +108,8 @@ theorem apply_pred (hP : ValPred P) {o : Op} (ho : PredOp P o) {bs : Bs} {em : L
       · cases h
       · cases h; exact ⟨hb, he⟩
     · cases h; exact ⟨hb, he⟩
+  | pollute => simp only [Op.apply] at h; cases h; exact ⟨hb, he⟩
+  | forin k => simp only [Op.apply] at h; cases h; exact ⟨allBs_insertB (hP.num _) hb, he⟩
   | loop => simp only [Op.apply] at h; cases h
   | emitBad k => simp only [Op.apply] at h; cases h
 
